@@ -86,7 +86,9 @@ def P1(ctx, facts):
     ctx.floor("idle-push-callers", len(sites), 1, "call sites of IdleConnections::push")
     for c in sites:
         # any method of PoolInner may host the entrance (helper extraction is fine); C15's P6 checks the bound at every site
-        ctx.check(c.fn.nkey.startswith("client::pool::PoolInner::") and "{closure" not in c.fn.nkey, "caller|%s" % c.fn.nkey,
+        import panics
+        owners = panics.owner_chain(c.fn)   # a private helper of the idle list itself (e.g. a bounded `try_push`) is judged by its callers
+        ctx.check(any(o.startswith("client::pool::PoolInner::") and "{closure" not in o for o in owners), "caller|%s" % c.fn.nkey,
                   "IdleConnections::push is called from a PoolInner method (%s)" % c.fn.nkey.split("::")[-1],
                   "IdleConnections::push called from outside PoolInner: %s" % c.fn.nkey, c.where())
     # Idle::new stamps Instant::now and is the only constructor of Idle
@@ -131,30 +133,10 @@ def lt_fact(fn, lab):
 
 def P6(ctx, facts):
     """The idle-list entrance is guarded by `idle.len() < config.max_idle_per_host`; config is immutable."""
-    sites = pushguard_sites(facts)
-    if not sites:
-        return ctx.missing("anchor", "no IdleConnections::push call in the crate")
-    for c in sites:
-        pool_push = c.fn
-        ctx.touched(pool_push)
-
-        def is_bound(lab, c=c, pool_push=pool_push):
-            f = lt_fact(pool_push, lab)
-            if f is None:
-                return False
-            a, b = f
-            ra = pool_push.roots(a)
-            rb = pool_push.roots(b)
-            a_ok = any(x.kind == "call" and x.site.is_("client::pool::idle::IdleConnections::len", "std::vec::Vec::len") for x in ra) \
-                and any(x.kind == "arg" and "idle" in x.desc for x in ra)
-            b_ok = any(x.kind == "arg" and x.desc.endswith("config.max_idle_per_host") for x in rb)
-            return a_ok and b_ok
-
-        ok, wit = pool_push.guarded(c.bb, is_bound)
-        ctx.check(ok, "%s|idle-push-bounded" % pool_push.nkey.replace("client::pool::", ""),
-                  "IdleConnections::push is dominated by the edge `idle.len() < self.config.max_idle_per_host`",
-                  "a path reaches the idle-list entrance without passing `idle.len() < config.max_idle_per_host`",
-                  c.where(), pool_push.path_desc(wit))
+    # the bound itself is a set of rows of the hand-back table (pooltable.py): with the list at its bound the connection is
+    # dropped, below it it is parked - wherever the comparison lives (`idle.len() < max`, a bounded `try_push`, ...)
+    import pooltable
+    pooltable.push_table(ctx, facts)
     # config immutable: no assignment to a `config` field of PoolInner outside PoolInner::new
     n = 0
     for f in facts.fns.values():
@@ -210,7 +192,12 @@ def pool_units(facts):
 
 def entrance_fns(facts):
     """PoolInner operations (see pool_units) through which a connection can reach the idle list (today: PoolInner::push)."""
-    return [u for u in pool_units(facts) if u.calls("client::pool::idle::IdleConnections::push")]
+    # directly, or through a private method of the idle list that grows it (a bounded `try_push`)
+    growers = {"client::pool::idle::IdleConnections::push"}
+    for g in facts.fns.values():
+        if g.nkey.startswith("client::pool::idle::IdleConnections::") and "{closure" not in g.nkey and g.calls("client::pool::idle::IdleConnections::push"):
+            growers.add(g.nkey)
+    return [u for u in pool_units(facts) if u.calls(*sorted(growers))]
 
 
 def _push_sites(facts):
